@@ -65,6 +65,13 @@ static NS void g_popped(long v) {
   if (!ok) sim_violation("C20-invented-value", "taker received %#lx which was never pushed", v);
   popped_vals[npopped++] = v;
 }
+static NS void g_unpush(long v) {
+  for (int i = 0; i < npopped; i++)
+    if (popped_vals[i] == v) sim_violation("C20-invented-value", "value %#lx was handed to a taker although its push gave up", v);
+  for (int i = 0; i < npushed; i++)
+    if (pushed_vals[i] == v) pushed_vals[i] = pushed_vals[--npushed];
+  sim_probe("stack_push_gave_up", 1);
+}
 static NS long newval(int t) { return ((long)(t + 1) << 8) | (++seqno[t]); }
 
 static void do_push(int t) {
@@ -82,7 +89,15 @@ static void do_push(int t) {
   } else {
     mpmc_stack_node_t* n = snode_get();
     mpmc_stack_node_init(n, (void*)v);
-    mpmc_stack_push(&stk, n);
+    if (v & 2) { /* every other value goes through the bounded-retry variant, which may give up */
+      if (mpmc_stack_push_timeout(&stk, n, 1 + (size_t)(v & 1)) != MPMC_SUCCESS) {
+        g_unpush(v); /* never linked: nobody can have taken it */
+        snode_put(n);
+        g_drop(h);
+        return;
+      }
+    } else
+      mpmc_stack_push(&stk, n);
   }
   g_ret(h, RES_OK);
 }
@@ -184,5 +199,7 @@ void h_run(void) {
   if (npopped != npushed) sim_violation("C20-lost-value", "%d values pushed, %d taken after the final drain", npushed, npopped);
   sim_probe("dist_fifo_retries", retries);
   h_lin_verdict("C20-not-linearizable");
+  /* teardown: the structures are empty; the nodes belong to the harness's pools */
+  if (kind == D_LIFO) mpmc_lifo_destroy(&lifo);
   sim_finish_ok();
 }
